@@ -371,6 +371,11 @@ def check_small_blocks(acc):
     acc.sample({'fn': 'add_sum3', 'host': 'H2:e0,e0,h1'})
 
 
+def VARIANT_PRED(t, v):
+    k = t.get('kind')
+    return k == 'blocks' or (k == 'nbits' and t['n'] <= 5) or (k == 'weighted' and t['n'] <= 2) or (k == 'two' and t['na'] + t['nb'] <= 4) or (k == 'pow2' and t['n'] <= 4)
+
+
 def plan(tier):
     t = [{'kind': 'blocks'}]
     N = 14 if tier == 'quick' else 16
